@@ -112,6 +112,8 @@ def compare_leaf(ctx, label, got, ref):
             # only decided when the definition is clear of the threshold by a margin
             m = 1e-2 + 1e-3 * rhs
             ctx.implies(label + ":set", lhs > rhs + m, got == True)  # noqa: E712
+            # the one tie that involves no rounding at all: no movement is never 'more than' a non-negative threshold
+            ctx.implies(label + ":no-movement", lhs == 0, got == False)  # noqa: E712
             return ctx.implies(label + ":clear", lhs < rhs - m, got == False)  # noqa: E712
     if ref is None or got is None:
         return ctx.require(label + ":none-pattern", ref is None and got is None, f"library {got!r} vs definition {ref!r}")
@@ -177,6 +179,22 @@ def run_definition(ctx, P):
         ref = expected(ctx, name, kw2, buckets, None)
         compare_series(ctx, name, got, ref)
         return ind, buckets, got, ref, None
+    if P.get("feed") == "cidx-then-append":
+        # part of the stream calculated, an OLDER candle recomputed with calculate_index (which must change nothing, also
+        # not in the helper series), then the rest of the stream appended: the definition over the whole stream
+        k = P["k"]
+        src = clone(cs)
+        ind = build(name, kw2, candles=src[:k], round_value=RV, **(P.get("extra") or {}))
+        ind.calculate()
+        ind.calculate_index(k // 2)
+        ind.calculate_index(-k + 1) if k >= 3 else None
+        for c in src[k:]:
+            ind.append(c)
+        got = ind.as_list()
+        ctx.observe("readings", got)
+        ref = expected(ctx, name, kw2, cs, x)
+        compare_series(ctx, name, got, ref)
+        return ind, cs, got, ref, x
     ind = build(name, kw2, candles=cs, round_value=RV, **(P.get("extra") or {}))
     ind.calculate()
     got = ind.as_list()
